@@ -2522,8 +2522,12 @@ impl HnswBackend {
         store.metadata[internal_id].clear();
         drop(store);
 
-        let mut meta_index = self.metadata_index.write();
-        meta_index.remove_doc(internal_id as u64, &old_metadata);
+        // Release the metadata index before the snapshot below: create_snapshot() takes
+        // snapshot_lock exclusively, and writers holding it shared wait for metadata_index.
+        {
+            let mut meta_index = self.metadata_index.write();
+            meta_index.remove_doc(internal_id as u64, &old_metadata);
+        }
 
         drop(write_gate_guard);
         drop(snapshot_guard);
